@@ -974,7 +974,8 @@ def run_cond_race(spec, acc):
     from vf.inject import Injector, func_code
     t_stop = time.time() + spec['shard']['secs']
     inj = Injector([func_code(stm.Condition.wait), func_code(stm.Condition.signal),
-                    func_code(stm.Condition.unhang)], spec['seed'])
+                    func_code(stm.Condition.unhang), func_code(clk.AppClock._run),
+                    func_code(clk.AppClock.sched)], spec['seed'])
     inj.p_yield = 0.3
     inj.start()
     tc = clk.TempoClock(2.0)
@@ -985,7 +986,9 @@ def run_cond_race(spec, acc):
             rng = case_rng(spec['seed'], 'C11', 'crace', i)
             how = rng.choice(['signal', 'signal', 'unhang', 'flow'])
             who = rng.choice(['thread', 'thread', 'SystemClock', 'AppClock'])
-            wclock = rng.choice([clk.SystemClock, tc])
+            # (a waiter on AppClock is re-scheduled there by the release: the
+            # clock's own sleep / wake hand-shake is part of "resumes once")
+            wclock = rng.choice([clk.SystemClock, tc, clk.AppClock])
             st = {'flag': False, 'evals': 0}
             go = threading.Event()
             resumed = []
@@ -1037,7 +1040,7 @@ def run_cond_race(spec, acc):
                     getattr(clk, who).sched(0, Function(release_task))
             th = threading.Thread(target=releaser, daemon=True, name='vf-releaser')
             th.start()
-            r.play(wclock) if wclock is clk.SystemClock else r.play(wclock, 0)
+            r.play(wclock, 0) if wclock is tc else r.play(wclock)
             t_end = time.time() + 3.0
             while len(resumed) < 2 and time.time() < t_end:
                 time.sleep(0.002)
@@ -1049,7 +1052,9 @@ def run_cond_race(spec, acc):
                 got = list(resumed)
             wit = {'case': i, 'how': how, 'from': who, 'hold_s': hold, 'resumed': got,
                    'test_evaluations': st['evals'], 'errors': err,
-                   'clock': 'SystemClock' if wclock is clk.SystemClock else 'TempoClock'}
+                   'clock': 'SystemClock' if wclock is clk.SystemClock else
+                   'AppClock' if wclock is clk.AppClock else 'TempoClock'}
+            acc.count('cond_race_waiter_on/' + wit['clock'])
             if err:
                 acc.violation(f'C11/cond-race/release-raised/{how}', wit)
             elif not got:
